@@ -121,6 +121,14 @@ def run_history(std, data, hist):
         start += k
         call("accumulate(%s, axis=%d)" % (arr.shape, axis), std.accumulate, arr, axis=axis)
         tags.append(tag)
+        if hist.get("probe") and start < N:
+            # an apply() between two accumulate calls (streaming use): the statistics "accumulated so far"
+            # must still be the ones used by the final apply, whatever was derived from them earlier
+            probe = np.asarray(d[: min(2, start)], dtype=np.float64)
+            if probe.shape[0] == 1 or (i % 2 == 0):
+                call("apply between accumulate calls", std.apply, probe[0].copy())
+            else:
+                call("apply between accumulate calls", std.apply, probe.copy(), axis=-1)
     return tags
 
 
@@ -215,6 +223,7 @@ def histories(draw, N):
         "perm": draw(st.one_of(st.none(), st.integers(0, 2 ** 16))),
         "cuts": sorted(cuts),
         "pres": [draw(_pres()) for _ in range(min(n_calls, 4))],
+        "probe": draw(st.sampled_from([False, False, True])),
     }
 
 
